@@ -20,6 +20,8 @@
 (*   lretain  tables of retained mw libraries        (see Dev)                *)
 (*   memo     get_page memo                          add_page (coherent)      *)
 (*   tags     allowed HTML tag table                 per context (see Dev)    *)
+(* A page is one atom here; the invocations INSIDE one page (lglobal, lloaded, *)
+(* lstring, luastk per #invoke) are modelled in ContextInvoke.tla.             *)
 EXTENDS Naturals, Sequences, FiniteSets, TLC
 
 CONSTANT Dev   \* deviations: "ExtensionTagsShared", "StringMetatableShared", "RetainedLibraryTablesShared"
